@@ -123,6 +123,7 @@ type FuncVC struct {
 	heapType    map[string]types.Type
 	callOrd     map[ssa.Instruction]int
 	assertBlk   []int // block index during which each assert was emitted (-1: global)
+	assertTag   map[int]string // asserts that stem from a property-tagged obligation (assume-after-assert)
 	anc         map[int]map[int]bool
 }
 
@@ -298,7 +299,17 @@ func (fv *FuncVC) oblige(kind string, what string, cond Term, pos token.Pos, not
 	}
 	fv.Obls = append(fv.Obls, o)
 	if !trivial {
+		// assert-then-assume; the assumption is visible only to obligations without a property
+		// tag or with the same tag, so that each property's obligations are proved on their own
+		// (a failing obligation of another property must not prop up this one's proof)
+		k := len(fv.asserts)
 		fv.assumeHere(cond)
+		if m := propTag.FindStringSubmatch(base); m != nil && len(fv.asserts) == k+1 {
+			if fv.assertTag == nil {
+				fv.assertTag = map[int]string{}
+			}
+			fv.assertTag[k] = m[1]
+		}
 	}
 	return o
 }
